@@ -12,7 +12,7 @@ import (
 
 func (ro *Roles) defsReads(r *Report, rule string) {
 	w := ro.w
-	retention := w.FuncByName("", "(*PipelineRunner).determineIfJobShouldBeRemoved")
+	retention := w.FuncByRole("", "(*PipelineRunner).determineIfJobShouldBeRemoved", func(f *ssa.Function) bool { return recvIs(f, "PipelineRunner") && sigHas(f, []string{"int", "PipelineJob"}, []string{"bool", "string"}) })
 	listP := w.FuncByName("", "(*PipelineRunner).ListPipelines")
 	allowed := map[*ssa.Function]string{}
 	add := func(f *ssa.Function, why string) {
